@@ -170,7 +170,11 @@ func verifyFunctionOnce(ld *Loaded, sp *Specs, key string) (out *FuncVC) {
 			ins = append(ins, incoming{cond: e.reach, st: e.st})
 		}
 		reach, fin := x.merge(ins, "exit")
-		x.frameObligations(fr, ct, fin, reach)
+		if ct.AssumeFrame {
+			addUnique(&rep.ContractUsed, "assumption: the frame of "+key+" (only its `modifies` locations change) is assumed, not proved")
+		} else {
+			x.frameObligations(fr, ct, fin, reach)
+		}
 		vc.obls = append(vc.obls, &Obligation{Name: key + "/vacuity[exit]", Kind: "vacuity", Prefix: len(vc.lines), Reach: reach, Goal: tFalse, Func: key, Expect: "sat", Info: "some return is reachable under all assumed contracts"})
 	} else {
 		vc.warn("function has no reachable return")
